@@ -84,6 +84,16 @@ def generalise_value(self, M, vals, stores, loc, path, leaves, force, tid_hint=N
     incoming values agree (leaves modified by a loop body)."""
     v0 = vals[0]
     forced_here = (loc, path) in force
+    if (loc, path, 'top') in force:
+        # the loop body puts a value of an incompatible shape here (another region, variant, function set ...):
+        # the head value must stand for anything of the type
+        if isinstance(v0, AdtV) and not isinstance(v0.tid, tuple) and self.P.types[v0.tid].get('adt_kind') == 'enum':
+            return AdtV(v0.tid, None, None)
+        if isinstance(v0, UnionV):
+            return UnionV(v0.tid, None, None)
+        if isinstance(v0, FnV):
+            return FnV(None)
+        return TopV(tid_hint)
     sub_forced = forced_here or any(f[0] == loc and f[1][:len(path)] == path for f in force)
     if not sub_forced:
         if all(v is v0 for v in vals[1:]) and not isinstance(v0, TopV):
@@ -205,6 +215,48 @@ def changed_leaves(self, loc, hv, bv, store, path=()):
     if hv.key(store) != bv.key(store):
         return [(loc, path)]
     return []
+
+
+def value_at(v, path):
+    for step in path:
+        kind, i = step
+        if kind == 'f':
+            if not (isinstance(v, AdtV) and v.fields is not None and i < len(v.fields)):
+                return None
+            v = v.fields[i]
+        elif kind == 'u':
+            if not (isinstance(v, UnionV) and v.active == i):
+                return None
+            v = v.val
+        else:
+            return v          # ('s', ..): a part of a slice value
+    return v
+
+
+def shape_compatible(hv, bv):
+    """can the (generalised) head value hv stand for the back-edge value bv?"""
+    if hv is None or isinstance(hv, TopV) or bv is None:
+        return True
+    if type(hv) is not type(bv):
+        # booleans and 0/1 integers are generalised into one another
+        return isinstance(hv, (IntV, BoolV)) and isinstance(bv, (IntV, BoolV))
+    if isinstance(hv, PtrV):
+        return hv.r == bv.r
+    if isinstance(hv, SliceV):
+        return hv.ptr.r == bv.ptr.r and hv.esz == bv.esz
+    if isinstance(hv, AdtV):
+        if hv.tid != bv.tid:
+            return False
+        if hv.variant is None and hv.fields is None:
+            return True
+        return hv.variant == bv.variant and (hv.fields is None) == (bv.fields is None)
+    if isinstance(hv, UnionV):
+        return hv.tid == bv.tid and (hv.active is None or hv.active == bv.active)
+    if isinstance(hv, RefV):
+        return hv.lv.key() == bv.lv.key()
+    if isinstance(hv, FnV):
+        return hv.fns is None or (bv.fns is not None and bv.fns <= hv.fns)
+    return True
 
 
 def leaf_value_in(st, leaf):
@@ -660,6 +712,19 @@ def exec_loop(self, fr, h, entry_states):
                         newF.add(lf)
         if newF:
             force |= newF
+            changedF = True
+            continue
+        # forced addresses whose back-edge value does not even have the head value's shape
+        newT = set()
+        for B in res['back']:
+            for f in list(force):
+                if len(f) != 2 or (f[0], f[1], 'top') in force:
+                    continue
+                hv, bv = value_at(get_loc(H, f[0]), f[1]), value_at(get_loc(B, f[0]), f[1])
+                if not shape_compatible(hv, bv):
+                    newT.add((f[0], f[1], 'top'))
+        if newT:
+            force |= newT
             changedF = True
             continue
         failed = [c for c in cands if any(not cand_holds(self, c, B, leaves) for B in res['back'])]
